@@ -264,17 +264,41 @@ inline void start_watchdog() {
     pthread_attr_destroy(&a);
 }
 
+//! Fail-fast on a violating tree (never triggers where nothing is reported): a shard stops after
+//! --max-viol-cases (default 10) cases that reported something, and once any shard of the leg has reported,
+//! the others stop --viol-grace seconds (default 15) later. The leg is then decided by what was reported; the
+//! driver does not call an unfinished leg "inconclusive" when it has violations.
+inline double mono_now() { struct timespec ts; clock_gettime(CLOCK_MONOTONIC_COARSE, &ts); return ts.tv_sec + ts.tv_nsec * 1e-9; }
+
 //! standard driver: runs one_case(idx, rng) for idx in [first, first+count)
 inline int run(int argc, char **argv, const std::function<void(uint64_t, Rng &)> &one_case) {
     parse_args(argc, argv);
     Args &a = st().args;
     prog_store(0, a.first); prog_store(1, 0);
     start_watchdog();
+    const uint64_t max_viol_cases = (uint64_t)a.num("max-viol-cases", 10);
+    const double grace = (double)a.num("viol-grace", 15);
+    const std::string flag = a.out.empty() ? std::string() : a.out + "/VIOL_SEEN." + a.mode;
+    uint64_t viol_cases = 0;
+    double last_poll = mono_now(), flag_seen_at = -1;
     for (uint64_t i = a.first; i < a.first + a.count; ++i) {
+        uint64_t v0 = st().violations;
         begin_case(i);
         Rng rng(mix(a.seed, i));
         one_case(i, rng);
         end_case();
+        if (st().violations != v0) {
+            if (++viol_cases == 1 && !flag.empty()) { int fd = open(flag.c_str(), O_WRONLY | O_CREAT, 0644); if (fd >= 0) close(fd); }
+            if (max_viol_cases && viol_cases >= max_viol_cases) { counter("stopped_early_after_violations"); break; }
+        }
+        if (!flag.empty() && grace >= 0) {
+            double now = mono_now();
+            if (now - last_poll >= 0.5) {
+                last_poll = now;
+                if (flag_seen_at < 0 && access(flag.c_str(), F_OK) == 0) flag_seen_at = now;
+                if (flag_seen_at >= 0 && now - flag_seen_at >= grace) { counter("stopped_early_after_violations"); break; }
+            }
+        }
     }
     finish();
     return 0;
